@@ -78,18 +78,50 @@ let parse_query q =
 
 let row_ids l = Stdlib.List.map (fun r -> r.Store.id) l
 
+let model_q ms q =
+  let (locs, stop) = parse_query q in
+  match Locator.locate ms locs stop with
+  | Locator.LOk l -> "H:" ^ ids_string (row_ids l) ^ " same"
+  | Locator.LErr -> "E:stoplow same"   (* lerr has the single value EStopLow: extraction erases the argument *)
+
+(* "r=<q1>+<q2>+.." : the answers are values, a later request cannot change an earlier answer *)
+let retained_parts q = split_on '+' (Stdlib.String.sub q 2 (Stdlib.String.length q - 2))
+let split_plus (obs : string) = Str.split (Str.regexp_string " + ") obs
+
 let model input =
   let (sl, q) = split_case input in
   let (_, ms, _, _) = stores sl in
   if q = "st" then tip_string ms ^ "/" ^ states_string ms
   else if q = "loc" then
     (match Locator.latest_locator ms with Some l -> ids_string l | None -> "FUEL-EXHAUSTED")
-  else begin
-    let (locs, stop) = parse_query q in
-    match Locator.locate ms locs stop with
-    | Locator.LOk l -> "H:" ^ ids_string (row_ids l) ^ " same"
-    | Locator.LErr -> "E:stoplow same"   (* lerr has the single value EStopLow: extraction erases the argument *)
-  end
+  else if starts_with "r=" q then
+    Stdlib.String.concat " + " (Stdlib.List.map (fun one -> model_q ms ("q=" ^ one)) (retained_parts q))
+  else model_q ms q
+
+(* one getheaders answer against the specification *)
+let check_answer (h, ms, ss, zw) q obs =
+  let (locs, stop) = parse_query q in
+  match words obs with
+  | [_; _; "changed"] -> "FAIL retained-answer-changed " ^ obs
+  | [g; l] ->
+    if l <> "same" then "FAIL locateheaders-differs-from-getheaders " ^ l else begin
+      let got =
+        if starts_with "H:" g then Some (Stdlib.String.sub g 2 (Stdlib.String.length g - 2))
+        else if g = "E:nolocators" || g = "E:stoplow" then Some ""       (* an error: the peer is sent nothing *)
+        else None in
+      match got with
+      | None -> "FAIL unexpected-error " ^ g
+      | Some got ->
+        let spec_loc l st = if zw then Locator.spec_locate_mc (Locator.tip_chain ms) l st else Locator.spec_locate ss l st in
+        let want = ids_string (row_ids (spec_loc locs stop)) in
+        if got = want then "OK"
+        else if locs = [] && got = "" then
+          "FAIL empty-locator-yields-nothing want " ^ want
+        else if stop = h.gid && want = "" && got = ids_string (row_ids (spec_loc locs BinNums.N0)) then
+          "FAIL stop-genesis-treated-as-no-stop got " ^ got
+        else "FAIL answer-mismatch got " ^ got ^ " want " ^ want
+    end
+  | _ -> "FAIL malformed-observable"
 
 (* the specification applied to the IMPLEMENTATION's observable *)
 let spec input obs =
@@ -103,28 +135,13 @@ let spec input obs =
   end else if q = "loc" then begin
     let want = ids_string (if zw then Locator.spec_locator_mc (Locator.tip_chain ms) else Locator.spec_locator ss) in
     if obs = want then "OK" else "FAIL locator-mismatch want " ^ want
-  end else begin
-    let (locs, stop) = parse_query q in
-    match words obs with
-    | [g; l] ->
-      if l <> "same" then "FAIL locateheaders-differs-from-getheaders " ^ l else begin
-        let got =
-          if starts_with "H:" g then Some (Stdlib.String.sub g 2 (Stdlib.String.length g - 2))
-          else if g = "E:nolocators" || g = "E:stoplow" then Some ""       (* an error: the peer is sent nothing *)
-          else None in
-        match got with
-        | None -> "FAIL unexpected-error " ^ g
-        | Some got ->
-          let spec_loc l st = if zw then Locator.spec_locate_mc (Locator.tip_chain ms) l st else Locator.spec_locate ss l st in
-          let want = ids_string (row_ids (spec_loc locs stop)) in
-          if got = want then "OK"
-          else if locs = [] && got = "" then
-            "FAIL empty-locator-yields-nothing want " ^ want
-          else if stop = h.gid && want = "" && got = ids_string (row_ids (spec_loc locs BinNums.N0)) then
-            "FAIL stop-genesis-treated-as-no-stop got " ^ got
-          else "FAIL answer-mismatch got " ^ got ^ " want " ^ want
-      end
-    | _ -> "FAIL malformed-observable"
-  end
+  end else if starts_with "r=" q then begin
+    let qs = retained_parts q and os = split_plus obs in
+    if Stdlib.List.length qs <> Stdlib.List.length os then "FAIL malformed-observable" else
+      Stdlib.List.fold_left2 (fun acc one o ->
+          if acc <> "OK" then acc else
+          if starts_with "PANIC" o then "FAIL panic" else check_answer (h, ms, ss, zw) ("q=" ^ one) o)
+        "OK" qs os
+  end else check_answer (h, ms, ss, zw) q obs
 
 let () = run_driver model spec
